@@ -85,6 +85,7 @@ func NewStateCache() *StateCache {
 }
 
 func (sc *StateCache) commitRound(round int64, prevHash, blockHash string) {
+	verifYield("commitRound:hashCache.Add")
 	sc.hashCache.Add(blockHash, prevHash)
 }
 
@@ -92,6 +93,7 @@ func (sc *StateCache) commit(bc *BlockCache) {
 	sc.lock.Lock()
 	defer sc.lock.Unlock()
 
+	verifYield("commit:hashCache.Get")
 	_, ok := sc.hashCache.Get(bc.blockHash)
 	if ok {
 		// block already committed
@@ -102,6 +104,7 @@ func (sc *StateCache) commit(bc *BlockCache) {
 	defer bc.mu.Unlock()
 	ts := time.Now()
 	for key, v := range bc.cache {
+		verifYield("commit:cache.Get")
 		bvsi, ok := sc.cache.Get(key)
 		if !ok {
 			var err error
@@ -116,8 +119,10 @@ func (sc *StateCache) commit(bc *BlockCache) {
 		if v.data != nil {
 			v.data = v.data.Clone()
 		}
+		verifYield("commit:bvs.Add")
 		bvs.Add(bc.blockHash, v)
 
+		verifYield("commit:cache.Add")
 		sc.cache.Add(key, bvs)
 	}
 
@@ -142,6 +147,7 @@ func (sc *StateCache) Get(key, blockHash string) (Value, bool) {
 	// sc.mu.RLock()
 	// defer sc.mu.RUnlock()
 
+	verifYield("Get:cache.Get")
 	blockValues, ok := sc.cache.Get(key)
 	if !ok {
 		logging.Logger.Debug("state cache get - key not found", zap.String("key", key))
@@ -149,6 +155,7 @@ func (sc *StateCache) Get(key, blockHash string) (Value, bool) {
 	}
 
 	bvs := blockValues.(*lru.Cache)
+	verifYield("Get:bvs.Get")
 	vv, ok := bvs.Get(blockHash)
 	if ok {
 		v := vv.(valueNode)
@@ -167,6 +174,7 @@ func (sc *StateCache) Get(key, blockHash string) (Value, bool) {
 	for {
 		count++
 		// get previous block hash
+		verifYield("Get:hashCache.Get")
 		prevHash, ok := sc.hashCache.Get(blockHash)
 		if !ok {
 			// could not find previous hash
@@ -175,6 +183,7 @@ func (sc *StateCache) Get(key, blockHash string) (Value, bool) {
 		}
 
 		blockHash = prevHash.(string)
+		verifYield("Get:bvs.Get(prev)")
 		vv, ok = bvs.Get(blockHash)
 		if !ok {
 			// stop if the value is not found in previous maxHisDepth rounds
@@ -193,6 +202,7 @@ func (sc *StateCache) Get(key, blockHash string) (Value, bool) {
 		// memoise in the key's existing per-block map: replacing the map would drop
 		// the values other blocks wrote, and an entry the queried block got meanwhile
 		// (its own commit) must not be overwritten by the ancestor's value
+		verifYield("Get:bvs.ContainsOrAdd")
 		bvs.ContainsOrAdd(oldBlockHash, v)
 		// logging.Logger.Debug("state cache - migrate from previous block",
 		// 	zap.String("key", key),
